@@ -138,6 +138,9 @@ fn t2() -> CTimeline {
     timeline_for(&T2, 100.0, 200.0, 50, 60)
 }
 
+const CLOCK_MODES: [&str; 5] = ["untouched", "relative speed 2", "relative speed 1/2", "paused during odd frames", "paused during frames 1 and 2"];
+thread_local! { static TMODE: std::cell::Cell<u8> = std::cell::Cell::new(0); }
+
 #[derive(Default)]
 struct Acc {
     sink: VSink,
@@ -170,6 +173,8 @@ struct Ent {
     e: Entity,
     cfg: usize,
     ctl: Vec<Ctl>,
+    /// frame before which the entity was spawned
+    born: usize,
     // model side
     on_t2: bool,
     ended_events_in_run: u32,
@@ -193,12 +198,20 @@ fn observe(world: &World, e: Entity) -> Obs {
 }
 
 fn schedule_json(sched: &[f64], ent: &Ent, tms: &[Cf]) -> Value {
-    json!({"timing": tms[ent.cfg].json(), "frame_deltas_s": sched, "control_before_each_frame": ent.ctl.iter().map(|c| format!("{c:?}")).collect::<Vec<_>>(),
+    json!({"timing": tms[ent.cfg].json(), "frame_deltas_s": sched, "spawned_before_frame": ent.born, "virtual_clock": CLOCK_MODES[TMODE.with(|t| t.get()) as usize], "control_before_each_of_its_frames": ent.ctl.iter().map(|c| format!("{c:?}")).collect::<Vec<_>>(),
            "initial_component": {"x": 3.0, "n": 33, "y": 7.0}, "T1_keyframes": "0%: x=10,n=-5; 100%: x=20,n=5", "T2": {"timing": T2.json(), "keyframes": "0%: x=100,n=50; 100%: x=200,n=60"}})
 }
 
 /// Runs one App for a delta schedule hosting `ents`; checks R1-R9 per entity-frame.
 fn run_schedule(sched: &[f64], ctl_histories: &[Vec<Ctl>], tms: &[Cf], rank0: u64, acc: &mut Acc) {
+    run_schedule_late(sched, ctl_histories, tms, 0, 0, rank0, acc)
+}
+
+/// `late` > 0: a second copy of every entity is spawned just before frame `late` (entities that join a running
+/// App must be treated like the ones present from the start).
+/// `tmode`: what happens to the virtual clock: 0 nothing, 1 relative speed 2, 2 relative speed 1/2, 3 paused during
+/// the odd frames, 4 paused during frames 1 and 2. The "frame's delta" of the rules is `Time::delta()`.
+fn run_schedule_late(sched: &[f64], ctl_histories: &[Vec<Ctl>], tms: &[Cf], late: usize, tmode: u8, rank0: u64, acc: &mut Acc) {
     let mut d = Driver::new(|app| {
         app.add_plugins(AnimationPlugin::<C>::new());
     });
@@ -206,33 +219,53 @@ fn run_schedule(sched: &[f64], ctl_histories: &[Vec<Ctl>], tms: &[Cf], rank0: u6
     let tls1: Vec<Tl> = tms.iter().map(|c| c.build()).collect();
     let tl2 = Tl::Plain(t2());
     let mut ents: Vec<Ent> = vec![];
-    for (ci, _) in tms.iter().enumerate() {
-        for h in ctl_histories {
-            // API variety: histories that start with Disable are spawned with `as_disabled()`, those
-            // that start with Reset through `Animator::new()` + `set_timeline`
-            let animator = match h.first() {
-                Some(Ctl::Disable) => tls1[ci].animator().as_disabled(),
-                Some(Ctl::Reset) => {
-                    let mut a = Animator::<C>::new();
-                    tls1[ci].set_on(&mut a);
-                    a
-                }
-                _ => tls1[ci].animator(),
-            };
-            // histories that start with Detach are spawned without the target component at all
-            let e = if h.first() == Some(&Ctl::Detach) { d.app.world.spawn((animator,)).id() } else { d.app.world.spawn((C::initial(), animator)).id() };
-            ents.push(Ent { e, cfg: ci, ctl: h.clone(), on_t2: false, ended_events_in_run: 0, entered_ended_in_run: false, comp_saw_end: false });
+    let spawn_batch = |d: &mut Driver, ents: &mut Vec<Ent>, born: usize| {
+        for (ci, _) in tms.iter().enumerate() {
+            for h in ctl_histories {
+                // API variety: histories that start with Disable are spawned with `as_disabled()`, those
+                // that start with Reset through `Animator::new()` + `set_timeline`
+                let animator = match h.first() {
+                    Some(Ctl::Disable) => tls1[ci].animator().as_disabled(),
+                    Some(Ctl::Reset) => {
+                        let mut a = Animator::<C>::new();
+                        tls1[ci].set_on(&mut a);
+                        a
+                    }
+                    _ => tls1[ci].animator(),
+                };
+                // histories that start with Detach are spawned without the target component at all
+                let e = if h.first() == Some(&Ctl::Detach) { d.app.world.spawn((animator,)).id() } else { d.app.world.spawn((C::initial(), animator)).id() };
+                ents.push(Ent { e, cfg: ci, ctl: h.clone(), born, on_t2: false, ended_events_in_run: 0, entered_ended_in_run: false, comp_saw_end: false });
+            }
         }
+    };
+    spawn_batch(&mut d, &mut ents, 0);
+    let mut index_of: std::collections::HashMap<Entity, usize> = ents.iter().enumerate().map(|(i, e)| (e.e, i)).collect();
+    let mut ev_by_ent: Vec<Vec<AnimationState>> = vec![vec![]; ents.len()];
+    TMODE.with(|t| t.set(tmode));
+    match tmode {
+        1 => d.set_speed(2.0),
+        2 => d.set_speed(0.5),
+        _ => {}
     }
-    let nent = ents.len();
-    let base_index = ents[0].e.index() as usize;
-    let mut ev_by_ent: Vec<Vec<AnimationState>> = vec![vec![]; nent];
     for (f, &dsec) in sched.iter().enumerate() {
-        let delta = Duration::from_secs_f64(dsec);
+        let raw_delta = Duration::from_secs_f64(dsec);
+        match tmode {
+            3 => d.set_paused(f % 2 == 1),
+            4 => d.set_paused(f == 1 || f == 2),
+            _ => {}
+        }
+        if late > 0 && f == late {
+            spawn_batch(&mut d, &mut ents, f);
+            index_of = ents.iter().enumerate().map(|(i, e)| (e.e, i)).collect();
+            ev_by_ent = vec![vec![]; ents.len()];
+        }
+        let nent = ents.len();
         // control operations before the frame, then pre-observation
         let mut pre: Vec<Obs> = Vec::with_capacity(nent);
         for ent in ents.iter_mut() {
-            let c = ent.ctl.get(f).copied().unwrap_or(Ctl::Nothing);
+            // (a late entity replays its control history from its own first frame)
+            let c = ent.ctl.get(f - ent.born).copied().unwrap_or(Ctl::Nothing);
             if c == Ctl::Detach {
                 d.app.world.entity_mut(ent.e).remove::<C>();
                 ent.comp_saw_end = false;
@@ -263,9 +296,12 @@ fn run_schedule(sched: &[f64], ctl_histories: &[Vec<Ctl>], tms: &[Cf], rank0: u6
         for v in ev_by_ent.iter_mut() {
             v.clear();
         }
-        for (e, s) in d.frame(delta) {
+        let frame_events = d.frame(raw_delta);
+        // the delta the systems saw (scaled / zero while paused)
+        let delta = d.last_delta();
+        for (e, s) in frame_events {
             acc.events += 1;
-            ev_by_ent[e.index() as usize - base_index].push(s);
+            ev_by_ent[index_of[&e]].push(s);
         }
         for (i, ent) in ents.iter_mut().enumerate() {
             acc.entity_frames += 1;
@@ -282,7 +318,7 @@ fn run_schedule(sched: &[f64], ctl_histories: &[Vec<Ctl>], tms: &[Cf], rank0: u6
             macro_rules! viol {
                 ($sig:expr, $($arg:tt)*) => {{
                     let msg = format!($($arg)*);
-                    acc.sink.add($sig, rank, || (format!("frame {f} (delta {dsec}s): {msg} | before {:?} after {:?} events {:?} | timing {:?} controls {:?} deltas {:?}", o, n, evs, tm, ent.ctl, sched), schedule_json(sched, ent, tms)));
+                    acc.sink.add($sig, rank, || (format!("frame {f} (delta {dsec}s): {msg} | before {:?} after {:?} events {:?} | timing {:?} controls {:?} (spawned before frame {}) deltas {:?}", o, n, evs, tm, ent.ctl, ent.born, sched), schedule_json(sched, ent, tms)));
                 }};
             }
             if !o.enabled {
@@ -505,6 +541,56 @@ pub fn run(run: Run) -> ! {
     );
     let nd_apps = nd.apps;
     merge(&mut acc, nd);
+    // late pass: a second copy of every entity joins the running App before frame 1, 2 or 3 (histories with <= 1
+    // control); the rules apply to it from its first frame on
+    let mut late_ctl: Vec<Vec<Ctl>> = vec![vec![]];
+    for pos in 0..3usize {
+        for c in [Ctl::Disable, Ctl::Reset, Ctl::SetT2, Ctl::Detach] {
+            let mut h = vec![Ctl::Nothing; pos + 1];
+            h[pos] = c;
+            if c == Ctl::Disable || c == Ctl::Detach {
+                h.push(Ctl::Nothing);
+                h.push(if c == Ctl::Disable { Ctl::Enable } else { Ctl::Attach });
+            }
+            late_ctl.push(h);
+        }
+    }
+    let latep = par_fold(
+        nsched * 3,
+        Acc::default,
+        |ii, acc| {
+            let (si, late) = (ii / 3, ii % 3 + 1);
+            let mut sched = vec![];
+            let mut c = si;
+            for _ in 0..depth {
+                sched.push(DELTAS[c % 4]);
+                c /= 4;
+            }
+            run_schedule_late(&sched, &late_ctl, &tms, late, 0, (4u64 << 60) | (ii as u64) << 40, acc);
+        },
+        merge,
+    );
+    let late_apps = latep.apps;
+    merge(&mut acc, latep);
+    // clock pass: the virtual clock runs at another speed or is paused for some frames (Time::set_relative_speed,
+    // Time::pause); the frame's delta is what Time::delta() reports
+    let clockp = par_fold(
+        nsched * 4,
+        Acc::default,
+        |ii, acc| {
+            let (si, tmode) = (ii / 4, (ii % 4 + 1) as u8);
+            let mut sched = vec![];
+            let mut c = si;
+            for _ in 0..depth {
+                sched.push(DELTAS[c % 4]);
+                c /= 4;
+            }
+            run_schedule_late(&sched, &late_ctl, &tms, 0, tmode, (5u64 << 60) | (ii as u64) << 40, acc);
+        },
+        merge,
+    );
+    let clock_apps = clockp.apps;
+    merge(&mut acc, clockp);
     // presence pass: the target component is detached / (re)attached between frames (an entity may carry an
     // Animator<C> before, or without ever, carrying C): all schedules x all histories over {nothing, detach, attach}
     let mut pr_ctl: Vec<Vec<Ctl>> = vec![vec![]];
@@ -533,7 +619,7 @@ pub fn run(run: Run) -> ! {
     cov.insert("traces_validated_against_impl".into(), json!(acc.apps));
     cov.insert("evaluations".into(), json!(acc.rule_checks));
     cov.insert("distinct_nontrivial".into(), json!(acc.nontrivial));
-    cov.insert("rule".into(), json!(format!("real headless bevy App (AnimationPlugin<C>, hand-driven Time resource, single-threaded executor): ALL {} frame-delta schedules of length {} over {{0, 2^-9, 1/4, 8}} s x ALL {} per-entity control histories over {{nothing, disable, enable, reset, set_timeline(T2)}} (one control before each frame) x 16 timeline configurations (12 plain: delay 0|1/2 x None|Times 1|Infinite x forward|reverse, cycle 1 s; 4 MergedTimelines of two components staggered by delay and/or with different repeat counts - delay = smallest, total = largest component total), one App per schedule hosting every (timing, control history) as its own entity; plus a deviation-bounded pass: default delta 1/4, all schedules of {} frames with <= {} deviations ({} schedules) x control histories with <= 1 control; plus a non-dyadic pass ({} schedules over deltas 0, 50 ms, 100 ms, 8 s x 4 timelines whose totals 0.3/0.4/0.7/0.3 s are not exactly representable x reset histories); plus a presence pass ({} Apps: all schedules x ALL histories over {{nothing, detach the target component, attach a fresh one}}; histories starting with detach spawn the animator without the component) - the animator's clock, state and events must not depend on the component being there, R6/R7 apply while it is. Rules per entity-frame: R1 position += delta while Waiting/Playing and frozen when Ended; R2 state never moves backwards; R3 Waiting only while position < delay; R4 Ended iff position >= total (checked at the frame-start position); R5 never Ended when infinite; R6 Ended => component == terminal values; R7 Playing => component == timeline at the frame-start position; R8 disabled => nothing changes, no event; R9 exactly one event per state change carrying the final state, one Ended per run. non-trivial = entity-frames in which the state changed", nsched, depth, ctl_h.len(), horizon, k, dev_apps, nd_apps, pr_apps)));
+    cov.insert("rule".into(), json!(format!("real headless bevy App (AnimationPlugin<C>, hand-driven Time resource, single-threaded executor): ALL {} frame-delta schedules of length {} over {{0, 2^-9, 1/4, 8}} s x ALL {} per-entity control histories over {{nothing, disable, enable, reset, set_timeline(T2)}} (one control before each frame) x 16 timeline configurations (12 plain: delay 0|1/2 x None|Times 1|Infinite x forward|reverse, cycle 1 s; 4 MergedTimelines of two components staggered by delay and/or with different repeat counts - delay = smallest, total = largest component total), one App per schedule hosting every (timing, control history) as its own entity; plus a deviation-bounded pass: default delta 1/4, all schedules of {} frames with <= {} deviations ({} schedules) x control histories with <= 1 control; plus a non-dyadic pass ({} schedules over deltas 0, 50 ms, 100 ms, 8 s x 4 timelines whose totals 0.3/0.4/0.7/0.3 s are not exactly representable x reset histories); plus a late pass ({} Apps: a second copy of every entity is spawned into the running App before frame 1, 2 or 3); plus a clock pass ({} Apps: Time::set_relative_speed(2 | 1/2), Time::pause during the odd frames or during frames 1-2 - the frame's delta is Time::delta()); plus a presence pass ({} Apps: all schedules x ALL histories over {{nothing, detach the target component, attach a fresh one}}; histories starting with detach spawn the animator without the component) - the animator's clock, state and events must not depend on the component being there, R6/R7 apply while it is. Rules per entity-frame: R1 position += delta while Waiting/Playing and frozen when Ended; R2 state never moves backwards; R3 Waiting only while position < delay; R4 Ended iff position >= total (checked at the frame-start position); R5 never Ended when infinite; R6 Ended => component == terminal values; R7 Playing => component == timeline at the frame-start position; R8 disabled => nothing changes, no event; R9 exactly one event per state change carrying the final state, one Ended per run. non-trivial = entity-frames in which the state changed", nsched, depth, ctl_h.len(), horizon, k, dev_apps, nd_apps, late_apps, clock_apps, pr_apps)));
     cov.insert("exhaustive".into(), json!(true));
     cov.insert("apps".into(), json!(acc.apps));
     cov.insert("events_observed".into(), json!(acc.events));
@@ -549,9 +635,11 @@ pub fn replay(case: &Value) -> bool {
     let tmj = &case["timing"];
     let ci = tms.iter().position(|t| t.json() == *tmj).unwrap_or(0);
     let sched: Vec<f64> = case["frame_deltas_s"].as_array().map(|a| a.iter().map(|x| x.as_f64().unwrap()).collect()).unwrap_or_default();
-    let ctl: Vec<Ctl> = case["control_before_each_frame"].as_array().map(|a| a.iter().map(|x| *ALL_CTLS.iter().find(|c| format!("{c:?}") == x.as_str().unwrap()).unwrap()).collect()).unwrap_or_default();
+    let ctl: Vec<Ctl> = case.get("control_before_each_of_its_frames").unwrap_or(&case["control_before_each_frame"]).as_array().map(|a| a.iter().map(|x| *ALL_CTLS.iter().find(|c| format!("{c:?}") == x.as_str().unwrap()).unwrap()).collect()).unwrap_or_default();
     let mut acc = Acc::default();
-    run_schedule(&sched, &[ctl], &tms[ci..ci + 1], 0, &mut acc);
+    let late = case["spawned_before_frame"].as_u64().unwrap_or(0) as usize;
+    let tmode = CLOCK_MODES.iter().position(|m| Some(*m) == case["virtual_clock"].as_str()).unwrap_or(0) as u8;
+    run_schedule_late(&sched, &[ctl], &tms[ci..ci + 1], late, tmode, 0, &mut acc);
     for (s, v) in &acc.sink.map {
         println!("{s}: {}", v.desc);
     }
